@@ -63,10 +63,11 @@ Definition annex_opt (a : option bytes) : sres (option bytes) :=
   match a with None => SOk None | Some b => match annex_new b with SOk x => SOk (Some x) | SErr e => SErr e | SPanic => SPanic end end.
 
 (* ---------- the cache object ---------- *)
-Record common_cache := { cc_prevouts : bytes; cc_sequences : bytes; cc_outputs : bytes; cc_issuances : bytes }.
+Record common_cache := { cc_prevouts : bytes; cc_sequences : bytes; cc_outputs : bytes; cc_issuances : bytes;
+                         cc_output_witnesses : bytes }.   (* (taproot only) depends on the transaction alone *)
 Record segwit_cache := { sc_prevouts : bytes; sc_sequences : bytes; sc_issuances : bytes; sc_outputs : bytes }.
 Record taproot_cache := { tc_script_pubkeys : bytes; tc_outpoint_flags : bytes; tc_asset_amounts : bytes;
-                          tc_issuance_rangeproofs : bytes; tc_output_witnesses : bytes }.
+                          tc_issuance_rangeproofs : bytes }.
 Record state := { st_tx : tx; st_common : option common_cache; st_segwit : option segwit_cache; st_taproot : option taproot_cache }.
 Definition init (t : tx) : state := {| st_tx := t; st_common := None; st_segwit := None; st_taproot := None |}.   (* SighashCache::new *)
 
@@ -111,15 +112,15 @@ Definition compute_common (t : tx) : common_cache :=
   {| cc_prevouts := H (flat_map (fun i => e_outpoint (in_prev i)) (tx_in t));
      cc_sequences := H (flat_map (fun i => e_u32 (in_seq i)) (tx_in t));
      cc_outputs := H (flat_map e_txout (tx_out t));
-     cc_issuances := H (flat_map (fun i => if has_issuance i then e_issuance (in_iss i) else [x00]) (tx_in t)) |}.
+     cc_issuances := H (flat_map (fun i => if has_issuance i then e_issuance (in_iss i) else [x00]) (tx_in t));
+     cc_output_witnesses := H (flat_map (fun o => e_surjproof (w_surj (out_wit o)) ++ e_rangeproof (w_range (out_wit o))) (tx_out t)) |}.
 Definition compute_segwit (c : common_cache) : segwit_cache :=
   {| sc_prevouts := H (cc_prevouts c); sc_sequences := H (cc_sequences c); sc_outputs := H (cc_outputs c); sc_issuances := H (cc_issuances c) |}.
 Definition compute_taproot (t : tx) (ps : list txout) : taproot_cache :=
   {| tc_asset_amounts := H (flat_map (fun o => e_asset (out_asset o) ++ e_value (out_value o)) ps);
      tc_script_pubkeys := H (flat_map (fun o => e_script (out_script o)) ps);
      tc_outpoint_flags := H (map (fun i => n2b (outpoint_flag i)) (tx_in t));
-     tc_issuance_rangeproofs := H (flat_map (fun i => e_rangeproof (w_amount_rp (in_wit i)) ++ e_rangeproof (w_keys_rp (in_wit i))) (tx_in t));
-     tc_output_witnesses := H (flat_map (fun o => e_surjproof (w_surj (out_wit o)) ++ e_rangeproof (w_range (out_wit o))) (tx_out t)) |}.
+     tc_issuance_rangeproofs := H (flat_map (fun i => e_rangeproof (w_amount_rp (in_wit i)) ++ e_rangeproof (w_keys_rp (in_wit i))) (tx_in t)) |}.
 
 (* common_cache / segwit_cache / taproot_cache : get_or_insert_with *)
 Definition common_cache_get : M common_cache := fun s =>
@@ -163,7 +164,7 @@ Definition taproot_encode (input_index : nat) (pv : prevouts) (annex : option by
         else ret w) ;;
   w <- (if negb (schnorr_eqb sighash SNone) && negb (schnorr_eqb sighash SSingle) then
           cc <- common_cache_get ;; let w := w ++ cc_outputs cc in
-          ps <- lift (get_all pv) ;; tc <- taproot_cache_get ps ;; let w := w ++ tc_output_witnesses tc in
+          cc <- common_cache_get ;; let w := w ++ cc_output_witnesses cc in
           ret w
         else ret w) ;;
   let spend_type := N.lor (if annex then 1 else 0) (if leaf then 2 else 0) in
@@ -262,7 +263,13 @@ Definition legacy_encode_tx (t : tx) (input_index : nat) (script_pubkey : bytes)
   | SErr e => SErr e | SPanic => SPanic end.
 Definition legacy_encode (input_index : nat) (script_pubkey : bytes) (ty : ecdsa_ty) : M bytes :=
   t <- get_tx ;; lift (legacy_encode_tx t input_index script_pubkey ty).
-Definition legacy_sighash idx script_pubkey ty : M bytes := mapM (fun m => H (H m)) (legacy_encode idx script_pubkey ty).
+(* legacy_sighash: the "SIGHASH_SINGLE bug" — without a corresponding output the constant 1 itself is the digest *)
+Definition sighash_one : bytes := x01 :: repeat x00 31.        (* `let mut one = [0u8; 32]; one[0] = 1;` *)
+Definition legacy_sighash idx script_pubkey ty : M bytes :=
+  t <- get_tx ;;
+  let '(sighash, _) := ecdsa_split ty in
+  if ecdsa_eqb sighash ESingle && Nat.ltb idx (length (tx_in t)) && Nat.leb (length (tx_out t)) idx then ret sighash_one
+  else mapM (fun m => H (H m)) (legacy_encode idx script_pubkey ty).
 
 (* ---------- witness_mut(i): the caller overwrites the script witness of input i (None when out of range) ---------- *)
 Definition set_script_witness_in (i : txin) (w : list bytes) : txin :=
